@@ -37,7 +37,7 @@ class FnContract:
     def __init__(self, key, file=None, qual=None, params=None, free=None, returns='any', is_async=False, suspends=None,
                  requires=(), ensures=(), raises=(), modifies=(), ghost_modifies=(), loops=None, callsites=None,
                  locals=None, cancellable=None, interference=None, assume_asserts=(), trusted=False, pure=False,
-                 self_cls=None, notes='', path_budget=4000, spec_term=None, exits_ensure=(), varkw=None, allocates=True, cancel_must_propagate=False, exit_hook=None, ctx_modifies=(), raises_tags=(), wf_fields=(), ignore_callee_raises=None, assumes=(), spawns=(), typed_elements=False):
+                 self_cls=None, notes='', path_budget=4000, spec_term=None, exits_ensure=(), varkw=None, allocates=True, cancel_must_propagate=False, exit_hook=None, ctx_modifies=(), raises_tags=(), wf_fields=(), ignore_callee_raises=None, assumes=(), spawns=(), typed_elements=False, any_containers=False):
         self.key = key
         self.file = file
         self.qual = qual
@@ -68,6 +68,7 @@ class FnContract:
         self.exit_hook = exit_hook
         self.ignore_callee_raises = ignore_callee_raises or {}   # callee key -> labels of its caller-only (over-approximate) raises clauses not explored here
         self.typed_elements = typed_elements   # state the class of list elements read under quantifiers (needed where object identity is derived from id())
+        self.any_containers = any_containers   # truthiness of Any-typed dict/list objects is their non-emptiness
         self.spawns = tuple(spawns)      # contract keys of the coroutines this function starts as tasks (checked at each create_task)
         self.assumes = [Clause.of(c) for c in assumes]   # global assumptions (trusted base) used by the body proof; not a caller obligation
         self.wf_fields = tuple(wf_fields)   # dict-valued fields whose insertion-order representation invariant is assumed on every read
